@@ -15,8 +15,8 @@
 use std::hash::Hash;
 
 use super::c01::{
-    self, explore, init_burst, prefix_usable, replay_with, run_specs, Call, Cfg, End, Ev, Report, Spec,
-    Transition, A, B, G, MS, S,
+    self, A, B, Call, Cfg, End, Ev, G, MS, Report, S, Spec, Transition, explore, init_burst,
+    prefix_usable, replay_with, run_specs,
 };
 use super::common::{self, Ctx};
 
@@ -47,7 +47,9 @@ fn judge02(cfg: &Cfg, m: &mut M02, tr: &Transition, mut rep: Option<&mut Report>
                 if u.kind == 1 {
                     if let Some(prev) = m.last.map(f64::from_bits) {
                         let rel = (1.0 + f) / (1.0 + prev) - 1.0;
-                        if prev.abs() <= cfg.max_steer && !(rel.abs() <= cfg.slew_max * (1.0 + 1e-9) + 1e-15) {
+                        if prev.abs() <= cfg.max_steer
+                            && !(rel.abs() <= cfg.slew_max * (1.0 + 1e-9) + 1e-15)
+                        {
                             r.viol(
                                 "C02:slew-end-exceeds-slew-maximum",
                                 format!("slew end changed the frequency by {rel:e} (from {prev:e} to {f:e}), slew maximum {:e}", cfg.slew_max),
@@ -76,10 +78,17 @@ fn judge02(cfg: &Cfg, m: &mut M02, tr: &Transition, mut rep: Option<&mut Report>
                         if desired.abs() == cfg.slew_max {
                             r.inc("slews_at_the_slew_maximum");
                         }
-                        r.note = Some(format!("slew started, extra frequency {desired:e} for {:?}", u.next_update.unwrap()));
+                        r.note = Some(format!(
+                            "slew started, extra frequency {desired:e} for {:?}",
+                            u.next_update.unwrap()
+                        ));
                     }
                     if u.kind == 0 {
-                        r.inc(if u.used.is_some() { "updates_with_consensus" } else { "updates_without_consensus" });
+                        r.inc(if u.used.is_some() {
+                            "updates_with_consensus"
+                        } else {
+                            "updates_without_consensus"
+                        });
                     }
                     if u.calls.iter().any(|c| matches!(c, Call::Step(_))) {
                         r.inc("steps");
@@ -124,7 +133,19 @@ fn starts02(cfg: &Cfg) -> Vec<(String, Vec<Ev>)> {
 
 fn alphabet02_full() -> Vec<Ev> {
     let mut v = Vec::new();
-    let offs = [0, 2 * MS, -5 * MS, 9 * MS, -9 * MS, S / 5, -S / 5, 700 * S, -700 * S, 90_000 * S, -(1i64 << 62)];
+    let offs = [
+        0,
+        2 * MS,
+        -5 * MS,
+        9 * MS,
+        -9 * MS,
+        S / 5,
+        -S / 5,
+        700 * S,
+        -700 * S,
+        90_000 * S,
+        -(1i64 << 62),
+    ];
     for off in offs {
         for dt in [S, 64 * S, 1024 * S] {
             v.push(Ev::meas(A, off, MS, dt));
@@ -231,8 +252,22 @@ fn check() {
     ));
     ctx.assume("the mock clock applies a frequency exactly as requested and reports the frequency given as 'kernel frequency at start' until the daemon first sets one");
     ctx.assume("the extra frequency of a slew is read from the controller's private desired_freq through a read-only probe; the slew-end cross-check uses only set_frequency arguments");
-    ctx.note("alphabet_full", &full.iter().map(|e| e.encode()).collect::<Vec<_>>().join(" "));
-    ctx.note("alphabet_core", &core.iter().map(|e| e.encode()).collect::<Vec<_>>().join(" "));
+    ctx.note(
+        "alphabet_full",
+        &full
+            .iter()
+            .map(|e| e.encode())
+            .collect::<Vec<_>>()
+            .join(" "),
+    );
+    ctx.note(
+        "alphabet_core",
+        &core
+            .iter()
+            .map(|e| e.encode())
+            .collect::<Vec<_>>()
+            .join(" "),
+    );
     let cfgs = configs02(quick);
     ctx.set("configurations", cfgs.len() as u64);
     let mut specs = Vec::new();
